@@ -66,6 +66,10 @@ def form_programs(tier):
     P("stokesB2D", 2, vgen.mul(["diverg", U, False], Vv), 2, 1)
     P("stokesBT2D", 2, vgen.mul(U, ["diverg", Vv, False]), 1, 2)
     P("mixed23_2D", 2, vgen.add(vgen.mul(vgen.comp(U, 0), vgen.comp(Vv, 2)), vgen.mul(vgen.Dx(vgen.comp(U, 1), 0), vgen.comp(Vv, 0))), 2, 3)
+    # 3D vector forms with non-square component blocks: four-level matrix structure whose last (packed) or first
+    # (blocked) level is rectangular
+    P("stokesB3D", 3, vgen.mul(["diverg", U, False], Vv), 3, 1)
+    P("stokesBT3D", 3, vgen.mul(U, ["diverg", Vv, False]), 1, 3)
     P("functional2D", 2, vgen.mul(f, Vv), arity=1)
     P("vfunctional2D", 2, ["inner", ["field", "w"], Vv], None, 2, arity=1)
     if tier == "thorough":
